@@ -301,3 +301,156 @@ Section Cores.
     rewrite opt_description_printed. cbn [obind]. rewrite from_range_pspan. reflexivity.
   Qed.
 End Cores.
+
+(** *** Lists of children *)
+
+Section StepsList.
+  Variables (f : nat -> expr -> string) (g : nat -> expr -> pos -> expr * pos) (sep : nat -> string).
+  Variables (r : string) (n : nat).
+  Variable stepf : input -> pres expr.
+  Variable Good : expr -> Prop.
+  Variable RestOk : string -> Prop.
+  Variable Link : expr -> string -> Prop.
+  Hypothesis Hprop : forall k x rest, Good x -> RestOk rest -> Link x rest ->
+      RestOk (append (sep (S k)) (append (f (S k) x) rest)).
+  Hypothesis Hstep : forall k x rest q, Good x -> RestOk rest -> Link x rest ->
+      (String.length (append (sep (S k)) (append (f (S k) x) rest)) < n)%nat ->
+      stepf (mkin (append (sep (S k)) (append (f (S k) x) rest)) q)
+      = Ok (fst (g (S k) x (adv_str (sep (S k)) q)), mkin rest (snd (g (S k) x (adv_str (sep (S k)) q))))
+      /\ (String.length rest < String.length (append (sep (S k)) (append (f (S k) x) rest)))%nat.
+
+  Lemma steps_list : forall xs k q, Forall Good xs -> linked f sep r Link (S k) xs -> RestOk r ->
+      (String.length (append (txt_list f sep (S k) xs) r) < n)%nat ->
+      steps stepf (mkin (append (txt_list f sep (S k) xs) r) q)
+            (fst (loc_list g (fun k q => adv_str (sep k) q) (S k) xs q))
+            (mkin r (snd (loc_list g (fun k q => adv_str (sep k) q) (S k) xs q))).
+  Proof.
+    induction xs as [|x xs IH]; intros k q G L R Hn.
+    - cbn. constructor.
+    - inversion G as [|? ? Gx Gxs]; subst. cbn [linked] in L. destruct L as [L1 L2].
+      cbn [txt_list loc_list]. cbn [txt_list] in Hn. rewrite !app_assoc_s in *.
+      assert (Rt : RestOk (append (txt_list f sep (S (S k)) xs) r))
+        by (apply (chain_rest f sep r Good RestOk Link Hprop); auto).
+      destruct (Hstep k x _ q Gx Rt L1 Hn) as [E Len].
+      destruct (g (S k) x (adv_str (sep (S k)) q)) as [x' q1] eqn:E1.
+      specialize (IH (S k) q1 Gxs L2 R).
+      destruct (loc_list g (fun k0 q0 => adv_str (sep k0) q0) (S (S k)) xs q1) as [rs q2] eqn:E2.
+      cbn [fst snd] in *. econstructor; [exact E| exact Len |].
+      apply IH. lia.
+  Qed.
+End StepsList.
+
+Lemma loc_list_nonempty : forall g sepadv k x xs q, fst (loc_list g sepadv k (x :: xs) q) <> [].
+Proof.
+  intros. cbn [loc_list]. destruct (g k x _) as [x' q1]. destruct (loc_list g sepadv (S k) xs q1) as [rs q2].
+  cbn. discriminate.
+Qed.
+
+Section Nary.
+  Variable c : cfg.
+
+  Definition GoodM (w : bool) (x : expr) : Prop := wfb w x = true /\ M c x.
+
+  Lemma goodM_of : forall w cs, Forall (M c) cs -> forallb (wfb w) cs = true -> Forall (GoodM w) cs.
+  Proof. intros. apply Forall_and; auto. apply forallb_Forall. exact H0. Qed.
+
+  (** one round of the sequence loop *)
+  Lemma seq_step : forall lay w n k x rr q,
+      GoodM w x -> st 3 rr ->
+      (String.length (append (seq_sep (lay []) (S k)) (append (txt (sub lay (S k)) 3 x) rr)) < n)%nat ->
+      (do (_, j1) <- multiblanks1 (mkin (append (seq_sep (lay []) (S k)) (append (txt (sub lay (S k)) 3 x) rr)) q);
+       I c n j1)
+      = Ok (fst (loc c (sub lay (S k)) 3 x (adv_str (seq_sep (lay []) (S k)) q)),
+            mkin rr (snd (loc c (sub lay (S k)) 3 x (adv_str (seq_sep (lay []) (S k)) q))))
+      /\ (String.length rr < String.length (append (seq_sep (lay []) (S k)) (append (txt (sub lay (S k)) 3 x) rr)))%nat.
+  Proof.
+    intros lay w n k x rr q [Wx Mx] Sr Hn.
+    assert (MS : mstop (sub lay (S k)) 3 x rr) by (apply mstop_low; auto).
+    assert (Fo : first_ok (txt (sub lay (S k)) 3 x) rr) by (apply (first_ok_any x _ 3%nat w); auto; lia).
+    split.
+    - rewrite multiblanks1_spec. cbn [rest].
+      pose proof (gap1_hd (fst (nl_sep (lay []) (S k))) (append (txt (sub lay (S k)) 3 x) rr)) as Hh.
+      unfold seq_sep at 1.
+      assert (Hb : hd_is blank_start (append (gap_text (gap1 (fst (nl_sep (lay []) (S k))))) (append (txt (sub lay (S k)) 3 x) rr)) = true).
+      { destruct (append (gap_text (gap1 (fst (nl_sep (lay []) (S k))))) (append (txt (sub lay (S k)) 3 x) rr)) as [|a b];
+          [discriminate|]. cbn [hd_is] in *. apply ws_start_facts in Hh. tauto. }
+      rewrite Hb. cbn [obind]. unfold seq_sep. rewrite skip_gap.
+      rewrite skip_no_blank by (apply first_ok_hd; exact Fo).
+      rewrite length_app_s in Hn.
+      apply (Mx (sub lay (S k)) 3%nat w _ rr n); auto; lia.
+    - rewrite length_app_s. pose proof (first_ok_len _ _ Fo). lia.
+  Qed.
+
+  (** one round of the alternative / fallback loops *)
+  Lemma bar_skip : forall g1 x q,
+      skip (mkin (append (gap_text (post_gap g1)) (String BAR x)) q)
+      = mkin (String BAR x) (adv_str (gap_text (post_gap g1)) q).
+  Proof. intros. rewrite skip_gap. apply skip_no_blank. vm_compute. reflexivity. Qed.
+
+  Lemma alt_step : forall lay w n k x rr q,
+      GoodM w x -> st 2 rr ->
+      (String.length (append (alt_sep (lay []) (S k)) (append (txt (sub lay (S k)) 2 x) rr)) < n)%nat ->
+      do_alternative_expr (Sq c n) (mkin (append (alt_sep (lay []) (S k)) (append (txt (sub lay (S k)) 2 x) rr)) q)
+      = Ok (fst (loc c (sub lay (S k)) 2 x (adv_str (alt_sep (lay []) (S k)) q)),
+            mkin rr (snd (loc c (sub lay (S k)) 2 x (adv_str (alt_sep (lay []) (S k)) q))))
+      /\ (String.length rr < String.length (append (alt_sep (lay []) (S k)) (append (txt (sub lay (S k)) 2 x) rr)))%nat.
+  Proof.
+    intros lay w n k x rr q [Wx Mx] Sr Hn.
+    assert (MS : mstop (sub lay (S k)) 2 x rr) by (apply mstop_low; auto).
+    assert (Fo : first_ok (txt (sub lay (S k)) 2 x) rr) by (apply (first_ok_any x _ 2%nat w); auto; lia).
+    split.
+    - unfold do_alternative_expr. rewrite multiblanks0_spec. cbn [obind].
+      unfold alt_sep. rewrite !app_assoc_s. cbn [append]. rewrite bar_skip.
+      unfold char_p. cbn [rest at_]. rewrite (proj2 (eqb_eq_a BAR BAR) eq_refl). cbn [obind].
+      rewrite multiblanks0_spec. cbn [obind]. rewrite skip_gap.
+      rewrite skip_no_blank by (apply first_ok_hd; exact Fo).
+      rewrite !adv_str_app. cbn [adv_str].
+      unfold alt_sep in Hn. rewrite !length_app_s in Hn.
+      apply (Mx (sub lay (S k)) 2%nat w _ rr n); auto; try lia. rewrite length_app_s. lia.
+    - rewrite !length_app_s. pose proof (first_ok_len _ _ Fo). rewrite length_app_s in H. lia.
+  Qed.
+
+  Lemma fb_step : forall lay w n k x rr q,
+      GoodM w x -> st 1 rr ->
+      (String.length (append (fb_sep (lay []) (S k)) (append (txt (sub lay (S k)) 1 x) rr)) < n)%nat ->
+      do_fallback_expr (A c n) (mkin (append (fb_sep (lay []) (S k)) (append (txt (sub lay (S k)) 1 x) rr)) q)
+      = Ok (fst (loc c (sub lay (S k)) 1 x (adv_str (fb_sep (lay []) (S k)) q)),
+            mkin rr (snd (loc c (sub lay (S k)) 1 x (adv_str (fb_sep (lay []) (S k)) q))))
+      /\ (String.length rr < String.length (append (fb_sep (lay []) (S k)) (append (txt (sub lay (S k)) 1 x) rr)))%nat.
+  Proof.
+    intros lay w n k x rr q [Wx Mx] Sr Hn.
+    assert (MS : mstop (sub lay (S k)) 1 x rr) by (apply mstop_low; auto).
+    assert (Fo : first_ok (txt (sub lay (S k)) 1 x) rr) by (apply (first_ok_any x _ 1%nat w); auto; lia).
+    split.
+    - unfold do_fallback_expr. rewrite multiblanks0_spec. cbn [obind].
+      unfold fb_sep. rewrite !app_assoc_s. cbn [append]. rewrite bar_skip.
+      unfold tag_p. cbn [rest at_ strip_prefix]. change "|"%char with BAR.
+      rewrite (proj2 (eqb_eq_a BAR BAR) eq_refl). cbn [obind].
+      rewrite multiblanks0_spec. cbn [obind]. rewrite skip_gap.
+      rewrite skip_no_blank by (apply first_ok_hd; exact Fo).
+      rewrite !adv_str_app. cbn [adv_str].
+      unfold fb_sep in Hn. rewrite !length_app_s in Hn.
+      apply (Mx (sub lay (S k)) 1%nat w _ rr n); auto; try lia. rewrite length_app_s. lia.
+    - rewrite !length_app_s. pose proof (first_ok_len _ _ Fo). rewrite length_app_s in H. lia.
+  Qed.
+
+  (** one round of the sub-word loop *)
+  Lemma sub_step : forall lay n k x rr q,
+      GoodM true x -> st 5 rr -> sublink x rr ->
+      (String.length (append (no_sep (S k)) (append (txt (sub lay (S k)) 5 x) rr)) < n)%nat ->
+      U c n (mkin (append (no_sep (S k)) (append (txt (sub lay (S k)) 5 x) rr)) q)
+      = Ok (fst (loc c (sub lay (S k)) 5 x (adv_str (no_sep (S k)) q)),
+            mkin rr (snd (loc c (sub lay (S k)) 5 x (adv_str (no_sep (S k)) q))))
+      /\ (String.length rr < String.length (append (no_sep (S k)) (append (txt (sub lay (S k)) 5 x) rr)))%nat.
+  Proof.
+    intros lay n k x rr q [Wx Mx] Sr Lk Hn. cbn [no_sep append adv_str] in *.
+    assert (MS : mstop (sub lay (S k)) 5 x rr).
+    { split; [exact Sr|]. intros _. split.
+      - intros O. apply Lk. apply open_end_inword; auto.
+      - intros Pl. apply Lk. exact Pl. }
+    assert (Fo : first_ok (txt (sub lay (S k)) 5 x) rr) by (apply (first_ok_any x _ 5%nat true); auto; lia).
+    split.
+    - apply (Mx (sub lay (S k)) 5%nat true _ rr n); auto; lia.
+    - pose proof (first_ok_len _ _ Fo). lia.
+  Qed.
+End Nary.
